@@ -85,18 +85,20 @@ Proof.
   unfold needs_summary. now rewrite Hl.
 Qed.
 
-Lemma tvs_shape : forall o a b, same_shape a b -> forall name incl excl, tvs o name incl excl a = tvs o name incl excl b.
+Lemma tvs_shape : forall o a b, same_shape a b -> forall name path incl excl, tvs o name path incl excl a = tvs o name path incl excl b.
 Proof.
-  intros o. induction a as [lk tn cn raw rep fmt|sq tn cn fmt items IH] using pv_ind'; intros b H name incl excl.
+  intros o. induction a as [lk tn cn raw rep fmt|sq tn cn fmt items IH] using pv_ind'; intros b H name path incl excl.
   - assert (E := needs_summary_shape o name _ _ H). inv H. cbn [tvs]. now rewrite E.
   - assert (E := needs_summary_shape o name _ _ H). inv H. cbn [tvs]. rewrite E.
     match goal with Hf : Forall2 _ items items' |- _ => rename Hf into HF end.
     assert (Ek : map fst items = map fst items').
     { clear -HF. induction HF as [|x y l l' [Hxy _] _ IHl]; [reflexivity|]. cbn [map]. now rewrite Hxy, IHl. }
-    assert (Er : forall label : bool,
-               map (fun kc : key * pv => (fst kc, if label then key_styles o ++ tvs o None None None (snd kc) else tvs o (Some (fst kc)) None None (snd kc))) items
-             = map (fun kc : key * pv => (fst kc, if label then key_styles o ++ tvs o None None None (snd kc) else tvs o (Some (fst kc)) None None (snd kc))) items').
-    { intros label. clear -HF IH. induction HF as [|x y l l' [Hxy Hs] _ IHl]; [reflexivity|].
+    assert (Er :
+               map (fun kc : key * pv => (fst kc, if is_label_at o sq path (fst kc) then key_styles o ++ tvs o None (path ++ [fst kc]) None None (snd kc)
+                                                  else tvs o (Some (fst kc)) (path ++ [fst kc]) None None (snd kc))) items
+             = map (fun kc : key * pv => (fst kc, if is_label_at o sq path (fst kc) then key_styles o ++ tvs o None (path ++ [fst kc]) None None (snd kc)
+                                                  else tvs o (Some (fst kc)) (path ++ [fst kc]) None None (snd kc))) items').
+    { clear -HF IH. induction HF as [|x y l l' [Hxy Hs] _ IHl]; [reflexivity|].
       inv IH. cbn [map]. rewrite IHl by assumption. rewrite Hxy.
       match goal with Hx : forall b, same_shape (snd x) b -> _ |- _ => rewrite !(Hx _ Hs) end. reflexivity. }
     rewrite Ek, Er. reflexivity.
